@@ -247,8 +247,13 @@ pub unsafe extern "C" fn write(fd: c_int, buf: *const c_void, count: size_t) -> 
 #[no_mangle]
 pub unsafe extern "C" fn rename(old: *const c_char, new: *const c_char) -> c_int {
     if let Decision::Fail(e) = decide("rename", &cstr(old), &cstr(new), 0, None) {
-        // EXDEV ("other mount") is only a faithful answer when the source exists; a missing source is ENOENT on any mount
-        if !(e == libc::EXDEV && libc::syscall(libc::SYS_access, old, libc::F_OK) != 0) {
+        // EXDEV ("other mount") is only a faithful answer when the source exists (a missing source is ENOENT on any
+        // mount) and when source and destination lie in different directories (one directory is one mount)
+        let same_dir = {
+            let (o, n) = (cstr(old), cstr(new));
+            std::path::Path::new(&o).parent() == std::path::Path::new(&n).parent()
+        };
+        if !(e == libc::EXDEV && (same_dir || libc::syscall(libc::SYS_access, old, libc::F_OK) != 0)) {
             set_errno(e);
             return -1;
         }
